@@ -214,6 +214,9 @@ func (m *Mapper) FromTuple(ctx context.Context, ts ...*ketoapi.RelationTuple) (r
 
 	for _, t := range ts {
 		t := t
+		if t == nil {
+			return nil, ketoapi.ErrIncompleteTuple
+		}
 		n, err := nm.GetNamespaceByName(ctx, t.Namespace)
 		if err != nil {
 			return nil, err
